@@ -138,6 +138,7 @@ class Engine:
         self.param_values = {}
         self.decide_calls = 0
         self.assumed_used = set()
+        self.dead_exits = []
         self.callee_used = set()      # repo callees whose PROVED contracts were used (modular reasoning)
         self.ghost_hits = set()
         self.lenient_skips = []
@@ -269,6 +270,10 @@ class Engine:
             node = out[2] if len(out) > 2 else self.fn
             ln = getattr(node, 'lineno', self.fn.lineno)
             st = st.clone()
+            if not self.feasible(st):
+                # cover check: this exit is unreachable under the facts accumulated on its own path (a contradictory assumption, or a branch
+                # that later facts rule out): its obligations would hold vacuously -- counted and reported with the function
+                self.dead_exits.append(ln)
             if self.is_generator:
                 posts = c.get('at_exit', [])
                 tag = 'exit'
